@@ -55,7 +55,7 @@ class Val:
 
     def __eq__(self, o):
         return (isinstance(o, Val) and self.atoms == o.atoms and self.items == o.items
-                and len(self.fn) == len(o.fn) and all(x[1] is y[1] for x, y in zip(self.fn, o.fn)))
+                and len(self.fn) == len(o.fn) and all(_fkey(x) == _fkey(y) for x, y in zip(self.fn, o.fn)))
 
     def __hash__(self):
         return hash(self.atoms)
@@ -85,12 +85,16 @@ def join(a, b):
     return Val(a.all_atoms() | b.all_atoms(), None, _fns(a, b))
 
 
+def _fkey(f):
+    return id(f[1]) if f[0] == "clo" else (f[1].kind, f[1].dotted)
+
+
 def _fns(a, b):
     if not b.fn:
         return a.fn
     out = list(a.fn)
     for f in b.fn:
-        if not any(f[1] is g[1] for g in out):
+        if not any(_fkey(f) == _fkey(g) for g in out):
             out.append(f)
     return tuple(out)
 
@@ -147,7 +151,7 @@ class Event:
         self.kind, self.origin, self.via, self.sure, self.desc, self.loc, self.chain = kind, origin, via, sure, desc, loc, tuple(chain)
 
     def key(self):
-        return (self.kind, self.origin, self.via, self.sure, self.desc, self.chain)
+        return (self.kind, self.origin, self.via, self.sure, self.desc, self.chain, self.loc)
 
     def __repr__(self):
         return "<%s %s via %s %s %s @%s %s>" % (self.kind, self.origin, self.via, "sure" if self.sure else "maybe", self.desc, self.loc,
@@ -155,7 +159,8 @@ class Event:
 
 
 class Summary:
-    def __init__(self, ret=FRESH, events=(), sites=()):
+    def __init__(self, ret=FRESH, events=(), sites=(), self_out=None):
+        self.self_out = dict(self_out or {})  # "self.attr" -> value at the normal exits (what the method leaves on self)
         self.ret = ret
         self.events = list(events)
         self.sites = set(sites)  # (loc, qualified function, method name) of every .fit*-call reached
@@ -197,8 +202,9 @@ EXT_KEEP = {"numpy.asarray", "numpy.asanyarray", "numpy.ascontiguousarray", "num
             "sklearn.utils.check_X_y", "sklearn.utils.validation.check_X_y"}
 EXT_VIEW = {"numpy.reshape", "numpy.squeeze", "numpy.ravel", "numpy.transpose", "numpy.swapaxes", "numpy.moveaxis", "numpy.rollaxis",
             "numpy.expand_dims", "numpy.lib.stride_tricks.as_strided", "numpy.flipud", "numpy.fliplr", "numpy.flip", "numpy.diagonal",
-            "numpy.real", "numpy.imag", "numpy.broadcast_to", "numpy.split", "numpy.array_split", "numpy.hsplit", "numpy.vsplit",
+            "numpy.real", "numpy.imag", "numpy.broadcast_to",
             "numpy.lib.stride_tricks.sliding_window_view", "numpy.rot90", "numpy.nditer", "numpy.ndenumerate"}
+EXT_LIST_OF_VIEWS = {"numpy.split", "numpy.array_split", "numpy.hsplit", "numpy.vsplit", "numpy.dsplit"}
 EXT_ELEM = {"builtins.list", "builtins.tuple", "builtins.enumerate", "builtins.zip", "builtins.reversed", "builtins.sorted",
             "builtins.iter", "builtins.map", "builtins.filter", "builtins.dict", "builtins.set", "builtins.frozenset", "builtins.next",
             "itertools.chain", "itertools.compress", "itertools.zip_longest", "itertools.islice", "itertools.product", "itertools.cycle"}
@@ -269,6 +275,7 @@ class _FnAnalysis:
         self.events = {} if outer is None else outer.events
         self.sites = set() if outer is None else outer.sites
         self.ret = None
+        self.exit_self = None
         self.loop_stack = []
         self.loop_cache = {} if outer is None else outer.loop_cache
         self.local_imports = set()
@@ -283,8 +290,17 @@ class _FnAnalysis:
         if body is None:
             self.ret = self.ev(self.fn.body, env)
         else:
-            self.block(body, dict(env))
-        return Summary(self.ret if self.ret is not None else FRESH, list(self.events.values()), self.sites)
+            end = self.block(body, dict(env))
+            if end is not None:
+                self.note_exit(end)
+        return Summary(self.ret if self.ret is not None else FRESH, list(self.events.values()), self.sites, self.exit_self)
+
+    def note_exit(self, st):
+        cur = {k: v for k, v in st.items() if k.startswith("self.")}
+        if self.exit_self is None:
+            self.exit_self = cur
+        else:
+            self.exit_self = self.join_states([self.exit_self, cur])
 
     def loc(self, node):
         return "%s:%s" % (self.module.relpath, getattr(node, "lineno", "?"))
@@ -391,6 +407,7 @@ class _FnAnalysis:
         if isinstance(n, ast.Return):
             v = self.ev(n.value, st) if n.value is not None else FRESH
             self.ret = join(self.ret, v)
+            self.note_exit(st)
             return None
         if isinstance(n, ast.Raise):
             if n.exc is not None:
@@ -456,8 +473,15 @@ class _FnAnalysis:
                 self.loop_stack[-1]["cont"].append(dict(st))
             return None
         if isinstance(n, (ast.Import, ast.ImportFrom)):
+            from ..index import Symbol
             for al in n.names:
-                st[(al.asname or al.name).split(".")[0]] = FRESH
+                if isinstance(n, ast.ImportFrom):
+                    d = (n.module or "") + "." + al.name
+                    sym = self.eng.repo._resolve_abs(d) if (n.level == 0 and d.startswith(self.eng.repo.package + ".")) else None
+                    sym = sym or Symbol("ext", d, None, d)
+                    st[al.asname or al.name] = Val([F], None, [("sym", sym)]) if sym.kind in ("ext", "class", "func") else FRESH
+                else:
+                    st[(al.asname or al.name).split(".")[0]] = FRESH
             return st
         if isinstance(n, (ast.Pass, ast.Global, ast.Nonlocal)):
             return st
@@ -466,13 +490,7 @@ class _FnAnalysis:
     def loop(self, n, st, is_for):
         # the transfer function of a loop is deterministic in its entry state and all side results (events,
         # returns) are monotone sets: a re-execution from an entry state seen before can reuse the exit state
-        ck = (id(n), frozenset(st.items()))
-        hit = self.loop_cache.get(ck)
-        if hit is not None:
-            return dict(hit[0]) if hit[0] is not None else None
-        out = self._loop(n, st, is_for)
-        self.loop_cache[ck] = (dict(out) if out is not None else None,)
-        return out
+        return self._loop(n, st, is_for)
 
     def _loop(self, n, st, is_for):
         head = dict(st)
@@ -534,7 +552,8 @@ class _FnAnalysis:
         elif isinstance(t, ast.Subscript):
             base = self.ev(t.value, st)
             self.ev(t.slice, st)
-            self.emit("write", base, "A", desc_prefix + "setitem", node)
+            ind = ":" + t.value.attr if isinstance(t.value, ast.Attribute) and t.value.attr in ("iloc", "loc", "at", "iat", "values", "flat") else ""
+            self.emit("write", base, "A", desc_prefix + "setitem" + ind, node)
             # remember that the container now holds v (fresh containers holding views)
             root = t.value
             while isinstance(root, (ast.Subscript, ast.Attribute)) and not (isinstance(root, ast.Attribute) and self.is_self(root.value)):
@@ -906,6 +925,10 @@ class _FnAnalysis:
                     e2 = Event(ev_.kind, ev_.origin, ev_.via, ev_.sure, ev_.desc, ev_.loc,
                                (cname,) + ev_.chain if len(ev_.chain) < 6 else ev_.chain)
                     self.events.setdefault(e2.key(), e2)
+        if t.kind == "method" and s.self_out:
+            # what the callee leaves on the (same) receiver is visible to the caller afterwards
+            for key, val in s.self_out.items():
+                st[key] = self.subst(val, actual, names, keep_self=True)
         return self.subst(s.ret, actual, names, keep_self=(t.kind == "method"))
 
     def subst(self, v, actual, names, keep_self):
@@ -941,6 +964,8 @@ class _FnAnalysis:
         cp = _kw_const(call, "copy")
         if name in EXT_KEEP:
             return join_all([FRESH] + [viewify(v) for v in pos[:2]])
+        if name in EXT_LIST_OF_VIEWS:
+            return join_all([FRESH] + [elemify(viewify(v)) for v in pos[:1]])
         if name in EXT_VIEW:
             return join_all([FRESH] + [viewify(v) for v in pos[:1]] + [viewify(kw[k]) for k in ("a", "x", "arr", "m") if k in kw])
         if name in EXT_ELEM:
@@ -978,8 +1003,9 @@ class _FnAnalysis:
                     self.emit("write", v, "A", "shuffle", call)
             else:
                 self.emit("write", recv, "A", "inplace-method:" + meth, call)
-                if meth in ("append", "extend", "insert", "add", "update", "setdefault") and has_rel(join_all([FRESH] + allargs)):
-                    held = join_all([elemify(v) if meth not in ("extend", "update") else elemify(subify(v)) for v in allargs])
+                # list/set growth: the container now holds the argument (dict/estimator .update is not a containment relation)
+                if meth in ("append", "extend", "insert", "add") and has_rel(join_all([FRESH] + allargs)):
+                    held = join_all([elemify(v) if meth != "extend" else elemify(subify(v)) for v in allargs])
                     root = f.value
                     if isinstance(root, ast.Name) and root.id in st:
                         st[root.id] = join(st[root.id], held)
